@@ -147,6 +147,9 @@ structure Hint where
   pg : Nat := 0
   /-- setDataBreakpoints: number of watchpoints the debugger accepted -/
   nrec : Nat := 0
+  /-- a request that starts the debuggee failed: what became of the debuggee process nevertheless (the library can fail
+  half-way through a start); `none` = not observed: the model keeps its state -/
+  dbgAfter : Dbg := .none
   deriving Repr
 
 /-- events the session puts into its queue and `send_events` forwards unchanged (bodies dropped except
@@ -409,7 +412,7 @@ def plan (s : Sess) (r : Req) (h : Hint) : List Act × HRes :=
     else match dbg with
     | .unload =>
       match h.outcome with
-      | .none => ([], .err)                                        -- `start_debugee_with_reason()?`
+      | .none => ([.setDbg (if h.dbgAfter == .none then dbg else h.dbgAfter)], .err)   -- `start_debugee_with_reason()?`
       | _ => (.respond true :: emitStop h, .ok)
     | _ => ([], .err)                                             -- `AlreadyRun`
   | .setBreakpoints =>
@@ -476,7 +479,7 @@ def plan (s : Sess) (r : Req) (h : Hint) : List Act × HRes :=
     if s.mode != .launch then ([.respond false], .ok)
     else if dbg == .none then ([], .err)
     else match h.outcome with
-      | .none => ([], .err)                                        -- `start_debugee_force_with_reason()?`
+      | .none => ([.setDbg (if h.dbgAfter == .none then dbg else h.dbgAfter)], .err)   -- `start_debugee_force_with_reason()?`
       | _ => (.respond true :: emitStop h, .ok)
   | .restartFrame =>
     if dbg == .none then ([], .err)
